@@ -114,10 +114,14 @@ class ExpressionEvaluator:
         """Compile ``expr`` ensuring only ``allowed_names`` are referenced."""
         try:
             tree = ast.parse(expr, mode="eval")
+            _SafeVisitor(allowed_names).visit(tree)
+            code = compile(tree, filename="<expr>", mode="eval")
         except SyntaxError as exc:  # pragma: no cover - simple propagation
             raise ExpressionError(f"Invalid expression syntax: {exc.msg}") from exc
-        _SafeVisitor(allowed_names).visit(tree)
-        code = compile(tree, filename="<expr>", mode="eval")
+        except RecursionError as exc:
+            # A very long chain (some hundred terms) nests deeper than the parser,
+            # the validator or the byte-code compiler can follow.
+            raise ExpressionError("Expression is nested too deeply.") from exc
 
         def _fn(**kwargs: Any) -> Any:
             return eval(code, self.env, kwargs)
